@@ -154,6 +154,52 @@ def run_exact_hint(inst):
         vpsc.Block.split = orig_split
 
 
+F1_COST_STEP = 1e-4      # part of F1's identification (known-findings.json): solve() stopped on a pass that changed the cost by at most this
+
+
+def float_continued(inst):
+    """F1 signature on the FLOAT run: solve(), then keep calling satisfy() until a pass performs no split (at most 60 passes);
+    returns the positions / cost / flags reached then"""
+    vpsc, vs, cs = build(inst, False)
+    orig_split = vpsc.Block.split
+    count = {"n": 0}
+
+    def split(c):
+        count["n"] += 1
+        return orig_split(c)
+
+    vpsc.Block.split = staticmethod(split)
+    try:
+        solver = vpsc.Solver(vs, cs)
+        costs = []
+        orig_satisfy = solver.satisfy
+
+        def satisfy():          # cost after every pass solve() makes: did it stop BECAUSE a pass left the cost unchanged?
+            orig_satisfy()
+            costs.append(solver.bs.cost())
+
+        solver.satisfy = satisfy
+        signal.signal(signal.SIGALRM, _alarm)
+        signal.alarm(20)
+        try:
+            solver.solve()
+            solver.satisfy = orig_satisfy
+            stationary = len(costs) >= 2 and abs(costs[-1] - costs[-2]) <= F1_COST_STEP
+            passes = 0
+            for _ in range(60):
+                count["n"] = 0
+                solver.satisfy()
+                passes += 1
+                if count["n"] == 0:
+                    break
+            cost = solver.cost()
+        finally:
+            signal.alarm(0)
+        return [v.position() for v in vs], cost, [i for i, c in enumerate(cs) if c.unsatisfiable], passes, stationary
+    finally:
+        vpsc.Block.split = orig_split
+
+
 def qp_line(inst, x, cost, xs, lam, unsat):
     return "qp|%s|%s|%s|%s|%s|%s|%s" % (
         ";".join("%s:%s:%s" % (fr(d), fr(w), fr(s)) for d, w, s in zip(inst["d"], inst["w"], inst["s"])),
@@ -241,12 +287,26 @@ def body(tier, seed, rep, only_prop=False, scale=1):
         elif f["cost"] != "ok":
             rep.prop_fail.append(("C05: the reported cost is not the cost of the reported positions: " + ans, payload))
         elif f["optimal"] == "fail":
-            if meta.get("premature") and meta.get("float_equals_exact_before") and "F1" in known:
-                # finding F1: solve() stopped on a cost-stationary pass; continuing satisfy() until no split repairs it
+            # finding F1 is identified by its call site and signature: solve() stopped (its cost-change test) while a split was still
+            # due, and calling satisfy() further on the same solver until a pass performs no split reaches the certified optimum.
+            # The signature is checked on the float run itself (its trajectory may differ from the exact run's).
+            repaired = False
+            if "F1" in known:
+                try:
+                    x2, cost2, unsat2, passes, stationary = float_continued(meta["inst"])
+                    parts = line.split("|")
+                    parts[3], parts[4], parts[7] = ",".join(fr(v) for v in x2), fr(cost2), ",".join(map(str, unsat2))
+                    f2 = fields(drive(["|".join(parts)])[0])
+                    repaired = f2["optimal"] == "ok" and f2["feasible"] == "ok" and passes >= 1 and stationary
+                    payload["continued"] = {"extra_passes": passes, "stopped_on_cost_stationary_pass": stationary, "driver": "|".join("%s=%s" % kv for kv in f2.items())}
+                except (Timeout, RecursionError):
+                    repaired = False
+            if repaired:
                 rep.known_seen["F1"] = known["F1"]["message"]
                 rep.count("F1-premature-stop")
+                rep.count("F1 exact-run-also-premature=%s" % bool(meta.get("premature")))
             else:
-                rep.prop_fail.append(("C05: a certified feasible placement is cheaper than the returned one: " + ans, payload))
+                rep.prop_fail.append(("C05: a certified feasible placement is cheaper than the returned one (and further satisfy() passes do not repair it): " + ans, payload))
         elif f["optimal"] == "nocert" and not only_prop:
             rep.corr_fail.append(("no optimality certificate could be produced for this acyclic instance: " + ans, payload))
         elif f["dual"] != "ok":
